@@ -6,6 +6,7 @@ import GoZero.C16.ProofsSet
 import GoZero.C16.ProofsRW
 import GoZero.C16.ProofsCache2
 import GoZero.C16.ProofsCache3
+import GoZero.C16.ProofsLru
 namespace GoZero.C16
 
 /-! ## Queue behaves as a FIFO -/
@@ -225,6 +226,41 @@ theorem cache_evicts_lru_order {T : Type} (ts : TStep T) (c : CacheG T) (h : c.I
   rcases h3 with ⟨e, _⟩ | ⟨old, e1, _, e3, e4, e5, e6, _⟩
   · exact Or.inl e
   · exact Or.inr ⟨old, e1, e3, e4, e5, e6⟩
+
+/-- **The evicted key is the least recently used one.**  Run any history with a ghost clock that stamps each
+key at every use (a `Set`, a `Get`/`Take` hit, a successful `Take` load — `usedKey`); in the state reached, if a
+`Set` evicts `old`, then `old`'s last use is older than the last use of every other cached key. -/
+theorem cache_evicts_least_recently_used {T : Type} (ts : TStep T) (limit : Nat) (hl : 0 < limit) (x : T)
+    (ops : List COp) (k v t old : Nat) :
+    let g := Ghost.run ts ⟨{ limit := limit, data := [], lru := [], timers := x }, fun _ => 0, 0⟩ ops
+    (CacheG.set ts g.c k v t).2.evicted = [old] →
+    ∀ k', k' ∈ akeys g.c.data → k' ≠ old → g.stamp old < g.stamp k' := by
+  intro g hev k' hk' hne
+  obtain ⟨hg, hc⟩ := Ghost.inv_run ts ops ⟨{ limit := limit, data := [], lru := [], timers := x }, fun _ => 0, 0⟩
+    (cache_new_inv limit x) ⟨fun _ => Nat.le_refl _, fun _ => List.Pairwise.nil⟩
+  have hlim : 0 < g.c.limit := by
+    have := (inv_after ts ops _ (cache_new_inv limit x)).2
+    show 0 < (Ghost.run ts _ ops).c.limit
+    rw [Ghost.run_c, this]; exact hl
+  rcases cache_evicts_lru_order ts g.c hc k v t with e | ⟨old', e, hlast, _⟩
+  · rw [e] at hev; cases hev
+  · rw [e] at hev
+    simp only [List.cons.injEq, and_true] at hev
+    subst hev
+    obtain ⟨ys, hys⟩ := List.getLast?_eq_some_iff.1 hlast
+    have hs := hg.sorted hlim
+    rw [hys, List.pairwise_append] at hs
+    have hm : k' ∈ g.c.lru := (hc.sameKeys hlim k').2 hk'
+    rw [hys, List.mem_append] at hm
+    rcases hm with hm | hm
+    · exact hs.2.2 k' hm old' (by simp)
+    · simp only [List.mem_singleton] at hm; exact absurd hm hne
+
+/-- limit 2: set 1, set 2, get 1 (stamps 1 ↦ 3, 2 ↦ 2); setting 3 evicts 2, the key used longest ago -/
+example :
+    let g := Ghost.run C12.Spec.step ⟨Spec.ACache.new 2, fun _ => 0, 0⟩ [.set 1 10 5, .set 2 20 5, .get 1]
+    (CacheG.set C12.Spec.step g.c 3 30 5).2.evicted = [2] ∧ g.stamp 2 = 2 ∧ g.stamp 1 = 3 ∧ g.c.lru = [1, 2] := by
+  decide
 
 /-- a hit (`Get`, or `Take` on a present key) moves the key to the front of the recency list, evicts nothing -/
 theorem cache_use_moves_to_front {T : Type} (ts : TStep T) (c : CacheG T) (hl : 0 < c.limit) (h : c.Inv)
